@@ -3,12 +3,14 @@
 # run the check against it through EQSIG_REPO, remove the worktree. Exit code of the check is echoed.
 set -u
 patch="$(readlink -f "$1")"; pid="$2"; tier="${3:-quick}"
+V=${VERIF_DIR:-/verif}
 wt=/tmp/wt_try_${pid}_$$
 git -C /repo worktree add -q --detach "$wt" HEAD || exit 2
 if ! git -C "$wt" apply "$patch" 2>/dev/null; then
   if ! git -C "$wt" apply --3way "$patch" 2>/dev/null; then echo "patch does not apply"; git -C /repo worktree remove --force "$wt"; exit 2; fi
 fi
-cd /verif && VERIF_EVIDENCE_DIR=/tmp/evid_seeded EQSIG_REPO="$wt" /venv/bin/python harness/check.py "$pid" --tier "$tier"; rc=$?
+cd $V && VERIF_EVIDENCE_DIR=/tmp/evid_seeded_$$ EQSIG_REPO="$wt" /venv/bin/python harness/check.py "$pid" --tier "$tier"; rc=$?
 git -C /repo worktree remove --force "$wt"
-/venv/bin/python /verif/translator/regen.py >/dev/null 2>&1   # generated files back to /repo's sources
+rm -rf /tmp/evid_seeded_$$
+/venv/bin/python $V/translator/regen.py >/dev/null 2>&1   # generated files back to /repo's sources
 echo "exit=$rc"
